@@ -39,6 +39,8 @@ def ServerTunnelHandler_resumeTunnel : List String := ["sessionMgr.ValidateTunne
 def auth_handleChallengePhase1 : List String := []
 def auth_handleChallengePhase2 : List String := ["secretKeyMgr.VerifyResponse", "conn.SetClientID", "conn.SetAuthenticated"]
 def auth_handleFirstConnection : List String := ["conn.SetClientID", "conn.SetAuthenticated"]
+def conncode_RecordMappingUsage : List String := ["repos.LockPortMapping", "portMappingService.GetPortMapping", "portMappingService.UpdatePortMapping"]
+def conncode_RevokeMapping : List String := ["repos.LockPortMapping", "portMappingService.GetPortMapping", "mapping.Revoke", "portMappingService.UpdatePortMapping"]
 def conncode_ValidateMapping : List String := ["portMappingService.GetPortMapping", "mapping.CanBeAccessedBy"]
 def forwardToSourceNode : List String := ["sendTunnelOpenResponseDirect", "tunnelConnMgr.CreateDedicatedConnection", "crossNodePool.Get", "WriteFrame", "runCrossNodeDataForwardDedicated"]
 def handleCrossNodeTargetConnection : List String := ["lookupTunnelRouting", "processCrossNodeForward"]
@@ -47,6 +49,8 @@ def handleTargetBridge : List String := ["bridgeLock.RLock", "handleCrossNodeTar
 def handleTunnelOpen : List String := ["json.Unmarshal", "sendTunnelOpenResponseDirect", "findOrCreateControlConnection", "tunnelHandler.HandleTunnelOpen", "sendTunnelOpenResponseDirect", "bridgeLock.Lock", "bridge.GetMappingID", "rejectTunnelOfOtherMapping", "handleExistingBridge", "tunnelRouting.LookupWaitingTunnel", "rejectTunnelOfOtherMapping", "handleCrossNodeTargetConnection", "sendTunnelOpenResponseDirect", "isSourceClient", "handleSourceBridge", "handleTargetBridge"]
 def isSourceClient : List String := ["cloudControl.GetPortMapping", "extractClientID", "clientConn.IsAuthenticated", "clientConn.GetClientID"]
 def processCrossNodeForward : List String := ["handleLocalBridgeWait", "forwardToSourceNode"]
+def repo_UpdatePortMappingStats : List String := ["LockPortMapping", "r.GetPortMapping", "r.UpdatePortMapping"]
+def repo_UpdatePortMappingStatus : List String := ["LockPortMapping", "r.GetPortMapping", "r.UpdatePortMapping"]
 end Skel
 
 end Gen
